@@ -3,6 +3,7 @@ import Rq.Model.Oracle
 import Rq.Model.Kernels
 import Rq.Model.Plan
 import Rq.Model.BitMat
+import Rq.Model.Cache
 /-! Driver handlers for the codec engine (E3). I/O glue around the model functions. -/
 namespace Rq.DriverE3
 open Rq Rq.Io
@@ -299,3 +300,41 @@ def handle (w : List String) : Option String :=
   | _ => none
 
 end Rq.DriverM
+
+namespace Rq.DriverC
+open Rq Rq.Io
+
+def parseEv (s : String) : Option Ev :=
+  match s.splitOn ":" with
+  | ["s", t, k] => some (.spawn (nat t) (nat k))
+  | ["t", t] => some (.step (nat t))
+  | _ => none
+
+def showReq : Req Nat → String
+  | .idle => "idle"
+  | .wantLookup k => s!"L{k}"
+  | .generating k => s!"G{k}"
+  | .wantInsert k _ => s!"I{k}"
+  | .done k p => s!"D{k}={p}"
+
+/-- snapshot: sorted keys | FIFO order | (key, plan's own symbol count) sorted | thread states -/
+def snap (s : CacheState Nat) : String :=
+  let keys := (s.cache.plans.map (·.1)).toArray.qsort (· < ·) |>.toList
+  let cnt := (s.cache.plans.toArray.qsort (fun a b => a.1 < b.1)).toList.map fun (k, p) => s!"{k}={p}"
+  showList keys ++ "|" ++ showList s.cache.order ++ "|" ++ (if cnt.isEmpty then "-" else ",".intercalate cnt)
+    ++ "|" ++ ",".intercalate (s.threads.map showReq)
+
+def handle (w : List String) : Option String :=
+  match w with
+  -- cache <capacity> <threads> <events>: the snapshot after every event (plans are abstract: gen k = k)
+  | ["cache", cap, n, evs] =>
+      match (evs.splitOn ",").mapM parseEv with
+      | none => some "err"
+      | some l =>
+        let (_, outs) := l.foldl (fun (acc : CacheState Nat × List String) ev =>
+          let s' := acc.1.next id (nat cap) ev
+          (s', acc.2 ++ [snap s'])) (CacheState.init (nat n), [])
+        some (" ".intercalate outs)
+  | _ => none
+
+end Rq.DriverC
